@@ -261,8 +261,7 @@ def run(tier: str, seed: int) -> int:
     ensure_repo_on_path()
     v = Verdict("C01", tier, seed)
     plans = ([(3, 2, ["R0", "Rinf", "C1", "L1"], "all"), (3, 3, ["Rinf", "R1"], "one")] if tier == "quick"
-             else [(3, 2, LEAVES, "all"), (4, 2, ["R0", "Rinf", "C1", "L1"], "one"), (3, 3, ["R0", "Rinf", "R1", "C1"], "one"),
-                   (4, 3, ["Rinf", "R1"], "one")])
+             else [(3, 2, LEAVES, "all"), (4, 2, ["R0", "Rinf", "C1", "L1"], "one"), (3, 3, ["R0", "Rinf", "R1", "C1"], "one")])
     for leaves, depth, kinds, freq in plans:
         res = run_tlc("Impedance", cfg_text(leaves, depth, kinds, freq=freq), dump=True, coverage=False, timeout=7200, heap="24g")
         try:
